@@ -313,6 +313,8 @@ class Oracle:
             self.observe_job(mj)
         if self.on('c01'):
             self.check_callbacks()
+        if self.on('c03'):
+            self.check_accept_protocol()
         if self.on('c04') and op[0] == 'tick' and res is None and \
                 not sim.restart_raised:
             self.check_lost_deadline()
@@ -397,6 +399,43 @@ class Oracle:
             if self.lim['R']:
                 self.lim['resets'] += 1
             self.lim['R'] = 0
+
+    def check_accept_protocol(self):
+        sim = self.sim
+        for mj in sim.jobs:
+            h = mj.handle
+            if h is None:
+                continue
+            if mj.kind == 'apply':
+                p = mj.parts[None]
+                if mj.order and mj.order[0] != 'accept' and p.ack_delivered:
+                    raise Violation('C03/result-before-accept', 'job %d callbacks '
+                                    'ran in order %r' % (mj.idx, mj.order))
+                if p.ack_delivered and not mj.discarded:
+                    if mj.cb['accept'] != 1:
+                        raise Violation('C03/accept-callback', 'job %d: ACK '
+                                        'consumed, accept callback ran %d times'
+                                        % (mj.idx, mj.cb['accept']))
+                    if mj.accept_args != (p.owner, p.ack_time):
+                        raise Violation('C03/accept-args', 'job %d: accept '
+                                        'callback got %r, the ACK said %r' % (
+                                            mj.idx, mj.accept_args,
+                                            (p.owner, p.ack_time)))
+                    if h._worker_pid != p.owner:
+                        raise Violation('C03/owner-not-recorded', 'job %d: owner '
+                                        '%r, accepted by %r' % (
+                                            mj.idx, h._worker_pid, p.owner))
+                elif not p.ack_delivered and mj.cb['accept']:
+                    raise Violation('C03/accept-callback', 'job %d: accept callback '
+                                    'ran before any ACK was consumed' % mj.idx)
+            elif mj.jobid in sim.pool._cache:
+                want = sorted(set(p.owner for p in mj.parts.values()
+                                  if p.ack_delivered and not p.ready_delivered))
+                got = sorted(set(h.worker_pids()))
+                if got != want:
+                    raise Violation('C03/owners/%s' % mj.kind, 'job %d: owners of '
+                                    'unfinished accepted parts %r, handle says %r'
+                                    % (mj.idx, want, got))
 
     def check_callbacks(self):
         for mj in self.sim.jobs:
